@@ -30,6 +30,11 @@ R7  scanner, yymore(): in every variant instantiated with M4_MODE_YYLINENO and M
     the loop: the register itself if nothing overwrites it between the set-up and the loop, or a cell the set-up
     copied it into (also through a called set-up function, by summary).  A register that the set-up resets after
     reading it (yy_more_offset with %array), a constant, or anything computed fails.
+R8  scanner, yyless() after yymore(): in the same variants the loop that rewinds the line counter for yyless (inline in
+    the cpp skeleton, the helper yy_less_lineno of c99/go) walks yytext from a start index to yyleng; that index must
+    be the yyless argument, which counts from yytext[0] and so already includes the text kept by yymore().  The start
+    value is followed through locals and into the arguments of every call of the helper; it must not depend on a
+    yymore length/offset register (the registers the token set-up reads to place the text, found by value flow).
 """
 import os, re
 import ir, flow, variants
@@ -1272,11 +1277,12 @@ class OffsetFlow:
 def cell_str(c):
     return c[-1] if c else '?'
 
-def newline_loops(sc9, yl):
-    """post-match newline loops of yylex: [(increment site, index local (alloca name), [initialising stores])]"""
+def newline_loops(sc9, yl, kind='inc'):
+    """post-match newline loops of yylex: [(increment site, index local (alloca name), [initialising stores])]
+    (kind='dec': the loops of any function that rewind the line counter over yytext[i], i < yyleng - yyless)"""
     out = []
     cfg = sc9.prog.cfg(yl, cut=False); res = sc9.resolver(yl)
-    for x, k in sc9.sites(yl, ('inc',)):
+    for x, k in sc9.sites(yl, (kind,)):
         if not sc9.in_loop(yl, x): continue
         idx = None
         for kind, info, br in sc9.guards(yl, x):
@@ -1355,6 +1361,95 @@ def r7(ctx):
 R7_REPLAY = ('%option yylineno noyywrap array\n%%\n"a\\n"  { yymore(); }\n"b\\n"  { yymore(); }\n"c"  { }\n.|\\n  { }\n%%\n'
              'int main(void){ yylex(); printf("%d\\n", yylineno); return 0; }\n# input `a\\nb\\nc`: two newlines, must print 3')
 
+# ================================================================== R8 (yyless after yymore: where the line rewind starts)
+
+def more_cells(sc, fl):
+    """scanner registers that hold a yymore length/offset, found by value flow: the registers the token set-up reads to place
+    the text (OffsetFlow.offset_loads), closed under plain copies between registers (yy_prev_more_offset); never the token length"""
+    cells = set()
+    for f in sc.mod.functions.values(): cells |= set(fl.offset_loads(f).values())
+    changed = True
+    while changed:
+        changed = False
+        for f in sc.mod.functions.values():
+            for x in f.ins:
+                if x.op != 'store': continue
+                dst = fl.cell(f, x.ops[1], locals_too=False)
+                cl = fl.copied_load(f, x.ops[0])
+                if dst is None or cl is None or cl[1][0] == 'local': continue
+                if sc.is_var(fl.res(f).loc(x.ops[1]), 'yyleng') or sc.is_var(fl.res(f).loc(cl[0].ops[0]), 'yyleng'): continue
+                if (dst in cells) != (cl[1] in cells): cells |= {dst, cl[1]}; changed = True
+    return cells
+
+def start_instances(sc, fl, f, val, site, depth=0):
+    """where the value `val` (computed in f, used at `site`) is decided: [(function, site, {register cell: load})].  A value that
+    depends on a parameter of f is followed into the matching argument of every call of f in the scanner (the rewind helper
+    of the c99/go skeletons and their yyless() function)."""
+    res = fl.res(f)
+    cells = {}; params = set()
+    pnames = [p for t, p in f.params]
+    for y in SID.deep_slice(f, val):
+        if y.op != 'load': continue
+        c = fl.cell(f, y.ops[0], locals_too=False)
+        if c is not None: cells.setdefault(c, y); continue
+        l = res.loc(y.ops[0])
+        if l[0] == 'local' and l[1].endswith('.addr') and l[1][:-5] in pnames: params.add(pnames.index(l[1][:-5]))
+    if not params or depth >= 3: return [(f, site, cells)]
+    out = []
+    me = sc.canon(f)
+    for g in sc.mod.functions.values():
+        if g is f: continue
+        for c in g.ins:
+            if c.op in ('call', 'invoke') and sc.callee(c) == me and len(c.ops) >= len(pnames):
+                for k in sorted(params):
+                    for gg, gsite, gcells in start_instances(sc, fl, g, c.ops[k], c, depth + 1):
+                        m = dict(cells); m.update(gcells); out.append((gg, gsite, m))
+    return out or [(f, site, cells)]
+
+def r8(ctx):
+    """R8: yyless(n) counts n from yytext[0], and after yymore() yytext[0..more_len) is the text kept from the previous
+    pieces: the characters given back are yytext[n..yyleng).  The loop that rewinds the line counter for yyless (it walks
+    yytext[i] from a start index to yyleng, decrementing under a comparison with newline) must therefore start at the yyless
+    argument itself; its start value - followed through locals and, for a helper function, into the arguments of every
+    call - must not depend on a yymore length/offset register (the scan-pointer arithmetic next to it does subtract the
+    prefix, because it is relative to the start of the new piece)."""
+    rep = ctx.rep
+    vs = [v for v in ctx.variants()] + more_variants(ctx)
+    n = 0; covered = set()
+    for v in vs:
+        modes = variants.mode_symbols(v)
+        if 'M4_MODE_YYLINENO' not in modes or 'M4_MODE_YYMORE_USED' not in modes: continue
+        sc = SID.scanner(v); sc9 = Scanner(v, sc.mod, sc.prog); fl = OffsetFlow(sc)
+        more = more_cells(sc, fl)
+        if not more: rep.broken('C09.R8: no yymore offset register recognised in %s' % v.name)
+        arr = 'M4_MODE_YYTEXT_IS_ARRAY' in modes
+        found = 0
+        for f in sc.mod.functions.values():
+            for x, idx, inits in newline_loops(sc9, f, 'dec'):
+                for st in inits:
+                    for g, site, cells in start_instances(sc, fl, f, st.ops[0], st):
+                        found += 1; n += 1
+                        gname = sc.canon(g)
+                        if gname == 'yylex': covered.add((v.backend, 'array' if arr else 'pointer'))
+                        bad = [c for c in cells if c in more]
+                        if bad:
+                            rep.fail('C09.R8', 'C09.R8:%s:%s:yyless-line-rewind-start' % (skel(v), gname), where(cells[bad[0]]),
+                                     'the loop that takes the newlines of the text given back by yyless() off the line counter (%s) starts at an index computed from %s, the '
+                                     'length of the text kept by yymore(): yyless(n) counts n from yytext[0], which already includes that text, so the newlines of '
+                                     'yytext[n - more .. n) stay consumed but are subtracted as well and yylineno falls behind [variant %s]' % (where(x), cell_str(bad[0]), v.name),
+                                     variant=v.describe(), replay_input=R8_REPLAY)
+                        else:
+                            rep.ok('C09.R8', '%s %s:%s the line rewind of yyless (loop@%s) starts at a value that does not depend on %s' % (
+                                v.name, gname, site.line, x.line, '/'.join(sorted(cell_str(c) for c in more))))
+        if not found: rep.broken('C09.R8: no line-rewind loop of yyless recognised in %s' % v.name)
+    need = {(b, 'pointer') for b in variants.BACKENDS}
+    if not need <= covered: rep.broken('C09.R8: no yyless line rewind analysed inside yylex for %s' % sorted(need - covered))
+    rep.setcount('r8_yyless_rewind_starts', n)
+    return n
+
+R8_REPLAY = ('%option yylineno noyywrap\n%%\n"ab\\ncd\\n"  { yymore(); }\n"EF\\nGH"  { yyless(8); printf("%d\\n", yylineno); }\n.|\\n  { }\n%%\n'
+             '# input `ab\\ncd\\nEF\\nGH\\n`: yytext = "ab\\ncd\\nEF\\nGH", yyless(8) keeps "ab\\ncd\\nEF", two newlines consumed, must print 3')
+
 # ================================================================== driver
 
 def run(ctx):
@@ -1371,6 +1466,8 @@ def run(ctx):
     rep.floor('C09.R5', 7, 'two table bodies, agreement, length, two call sites under do_yylineno, fwrite')
     r7(ctx)
     rep.floor('C09.R7', 18, 'one loop initialisation per yylineno+yymore variant: 16 %pointer (all five back ends) and 4 %array (nr, r, c99, go)')
+    r8(ctx)
+    rep.floor('C09.R8', 30, 'the in-action and the section-3 yyless of each of >=18 yylineno+yymore variants (C++ has no section-3 form)')
     rep.undecided += ['the numeric value of yylineno for any input or history',
                       'that rule_has_nl[] is exact (it may over-approximate: a flagged rule that never matches newline only costs time)',
                       'that cclnegate() is applied at most once per class (a second call would flip ccl_has_nl[] again)',
